@@ -5427,3 +5427,62 @@ def survey3_rules(ctx):
         ctx.check(len(pu) >= 1, 'floor|%s|push' % f.path, 'a new region allocator is added to the list', f, f.line)
         if nw and pu:
             ctx.must_pass(f, pu, start=nw[0], exits='any', what='an allocator created for a new region is added to the list')
+
+
+def own_growth_rules(ctx):
+    """check_integrity() reloads the durable header and compares its layout with the file length.  A file that
+    is longer than the stored layout because this process grew it for a transaction that was then rolled
+    back is not damage: the reload asks, before it discards the live state, whether the file length is the
+    one the live layout describes, and the clean / unclean verdict of the header takes that answer into
+    account (an external change of length makes the two differ and is still reported)."""
+    ctx.set_rule('C11.R8', 'a healthy database whose file was grown by a rolled-back transaction is not reported as repaired: the reload distinguishes its own file length from an external change')
+    f = ctx.fn(TM + '::clear_cache_and_reload')
+    g = ctx.fn('UnrepairedDatabaseHeader::finalize')
+    if f is not None:
+        m = [cpoint(c) for c in f.calls_to(TM + '::file_len_matches_layout')]
+        dw = ctx.sites(f, PCF + '::discard_write_buffer', exact=1)
+        fz = ctx.sites(f, 'UnrepairedDatabaseHeader::finalize', exact=1)
+        ok_ = len(m) == 1
+        ctx._ob(ok_, ctx.sample('shape', f, f.line, 'the reload asks whether the file length is the live layout\'s own'))
+        if not ok_:
+            ctx.violate('shape|%s|own-length-not-asked' % f.path, 'clear_cache_and_reload does not ask whether the file length is the one the live layout describes before discarding the live state: a file grown by a rolled-back transaction is then indistinguishable from an external change and check_integrity() reports a repair on a healthy database', f, f.line)
+        else:
+            ctx.order(f, m, dw, 'the question is asked before the live state is discarded')
+            for p in fz:
+                ok2 = len(p.call.t['a']) >= 3 and core.flows_from_call(f, p.call.t['a'][2], TM + '::file_len_matches_layout')
+                ctx._ob(bool(ok2), ctx.sample('arg-flow', f, p.line, 'the answer reaches the header\'s clean / unclean verdict'))
+                if not ok2:
+                    ctx.violate('arg-flow|%s|own-length-unused' % f.path, 'the answer of file_len_matches_layout() does not reach UnrepairedDatabaseHeader::finalize', f, p.line)
+    if g is not None:
+        names = [g.local_name(i) for i in range(1, g.argc + 1)]
+        has = 'own_file_len' in names
+        ctx._ob(has, ctx.sample('shape', g, g.line, 'finalize takes the own-file-length answer'))
+        if not has:
+            ctx.violate('shape|%s|no-own-length-parameter' % g.path, 'UnrepairedDatabaseHeader::finalize cannot tell redb\'s own file growth from an external change of length (no own_file_len input): every layout discrepancy is reported as unclean', g, g.line)
+        else:
+            # `kept_primary && (layout_matched || own_file_len)`: the parameter is read once per verdict
+            # (recovery branch and non-recovery branch)
+            pl = names.index('own_file_len') + 1
+            reads = 0
+            for b in g.blocks:
+                if b['c']:
+                    continue
+                for st in b['s']:
+                    if st[0] == 'a':
+                        for o in _rv_operands(st[2]):
+                            if o[0] != 'k' and o[1][0] == pl and not o[1][1]:
+                                reads += 1
+                t = b['t']
+                if t['k'] == 'sw' and t['o'][0] != 'k' and t['o'][1][0] == pl:
+                    reads += 1
+            ok3 = reads >= 2
+            ctx._ob(ok3, ctx.sample('shape', g, g.line, 'both verdicts of finalize read own_file_len'))
+            if not ok3:
+                ctx.violate('shape|%s|verdict-ignores-own-length' % g.path, 'finalize reads own_file_len %d time(s): both of its verdicts (recovery and non-recovery branch) must take it into account' % reads, g, g.line)
+    # the open path never claims the length as its own
+    h = ctx.fn(TM + '::new')
+    if h is not None:
+        for c in h.calls_to('UnrepairedDatabaseHeader::finalize'):
+            if len(c.t['a']) >= 3:
+                t = core.sym(h).operand(c.t['a'][2])
+                ctx.check(t[0] == 'const' and t[2] is False, 'const|%s|open-own-length' % h.path, 'opening a storage never treats its length as redb\'s own uncommitted growth', h, c.line)
